@@ -153,6 +153,7 @@ inline std::string lapack_perm(int len, int dimn, std::vector<int> *out = nullpt
 
 // pick an op of the property by weight and let it generate the case
 Case gen_from_ops(const char *prop, const GenCtx &ctx, int viewpct);
+void even_offsets_for_building_blocks(Case &c);
 
 inline std::vector<int> parse_intlist(const std::string &s) {
   std::vector<int> v;
